@@ -181,6 +181,13 @@ impl Dir {
         }
     }
 
+    pub fn debug_state(&self) -> String {
+        format!(
+            "written={} delivered={} read={} inflight={} readable={} closed={:?} eof_visible={} reader_waker={} writer_waker={} flusher_waker={} armed(w={} f={} s={}) blocked={} reader_gone={} shutdown_called={}",
+            self.written, self.delivered, self.read, self.inflight.len(), self.readable.len(), self.closed, self.eof_visible, self.reader_waker.is_some(), self.writer_waker.is_some(), self.flusher_waker.is_some(), self.writer_armed, self.flusher_armed, self.shutdown_armed, self.blocked, self.reader_gone, self.shutdown_called
+        )
+    }
+
     pub fn unread_bytes(&self) -> u64 {
         self.written - self.read
     }
@@ -637,7 +644,7 @@ impl Drop for PipeEnd {
     fn drop(&mut self) {
         let (pipe, side) = (self.pipe, self.side);
         let wakers = super::try_with(|w| {
-            let err = w.rng.chance(1, 2);
+            let err = w.rng.chance(w.gone_write_err.0, w.gone_write_err.1);
             let super::World { pipes, trace, .. } = w;
             if pipe < pipes.len() {
                 pipes[pipe].end_dropped(side, err, trace)
